@@ -198,6 +198,10 @@ class Contract:
     def domain_extra(self, S):
         return []
 
+    def lemmas(self, S, res):
+        """(label, formula) consequences of `ensures` to be proved and kept at every call site (see Contract.apply)"""
+        return []
+
     def ensures(self, S, res):
         return []
 
@@ -282,6 +286,11 @@ class Contract:
             if item[1] is False:
                 raise Unsupported('contract %s: clause %s is literally False at a call site (line %d)' % (self.name, item[0], line))
             state.assume(item[1])
+        # cut rule: consequences of the ensures clauses that later obligations need in a handy form are proved here, where the
+        # context is small, and then kept as hypotheses
+        for lbl, g in self.lemmas(S, res):
+            ex.ctx.oblige(state, 'lemma[%s]:%s' % (self.name, lbl), line, g)
+            state.assume(g)
         if getattr(self, 'auto_valid', True):
             if isinstance(res, STT):
                 state.assume(valid(res))
